@@ -2188,7 +2188,7 @@ fn main() {
     };
     // the first two cases are directed (every defect once, in a fixed order, with and without validator keys)
     const PLAN: &[usize] = &[9, 6, 8, 4, 5, 0, 1, 2, 3, 7, 9];
-    for case in 0..30 * scale {
+    for case in 0..2 + 18 * scale {
         let directed = case < 2;
         let nrep = if directed { 3 } else { 2 + r.below(2) as usize };
         let with_reg = if directed { case == 0 } else { r.chance(1, 2) };
